@@ -1,9 +1,97 @@
 import Driver.Util
+import MpcVerif.Model.Vole
+import MpcVerif.Model.Fx
 
 namespace Drv.C20
+open Mpc Drv
 
-/-- Line-protocol handler of property C20 (stub). -/
-def handle (_args : List String) : String := "bad-op"
+def natOfHex (s : String) : Option Nat :=
+  if s.isEmpty then none else
+  s.toList.foldlM (fun acc c => (Aes.hexVal c).map fun d => acc * 16 + d) 0
+
+def hexDigits : Array Char := "0123456789abcdef".toList.toArray
+
+/-- Fixed-width lower-case hex (most significant digit first). -/
+def hexFixed (digits : Nat) (n : Nat) : String :=
+  String.ofList ((List.range digits).map fun i => hexDigits[(n >>> (4 * (digits - 1 - i))) % 16]!)
+
+def hexNat (n : Nat) : String :=
+  let rec digits (fuel n : Nat) (acc : List Char) : List Char :=
+    match fuel with
+    | 0 => acc
+    | fuel + 1 => if n < 16 then hexDigits[n]! :: acc else digits fuel (n / 16) (hexDigits[n % 16]! :: acc)
+  String.ofList (digits 4096 n [])
+
+def hexBytes (l : List UInt8) : String :=
+  String.ofList (l.flatMap fun b => [hexDigits[b.toNat / 16]!, hexDigits[b.toNat % 16]!])
+
+def parseNats (s : String) : Option (List Nat) :=
+  if s == "-" then some [] else (s.splitOn ",").mapM natOfHex
+
+/-- Concatenated 32-hex-digit labels. -/
+def parseLabels (s : String) : Option (List (BitVec 128)) :=
+  if s == "-" then some [] else
+  let cs := s.toList
+  if cs.length % 32 != 0 then none else
+  (List.range (cs.length / 32)).mapM fun i =>
+    (natOfHex (String.ofList ((cs.drop (32 * i)).take 32))).map (BitVec.ofNat 128)
+
+def natsStr (l : List Nat) : String :=
+  if l.isEmpty then "-" else ",".intercalate (l.map hexNat)
+
+def errStr : Vole.VoleErr → String
+  | .labelCount g w => s!"err-label-count {g} {w}"
+  | .msgLen g w => s!"err-msg-len {g} {w}"
+  | .bytes32Panic => "panic"
+  | .lengthMismatch => "err-length-mismatch"
+
+def handle (args : List String) : String :=
+  match args with
+  -- vole <p> <labels> <xs> <ys>
+  | ["vole", p, labels, xs, ys] =>
+    match natOfHex p, parseLabels labels, parseNats xs, parseNats ys with
+    | some p, some labels, some xs, some ys =>
+      match Vole.session Vole.prgAes labels xs ys p with
+      | .error e => errStr e
+      | .ok s => s!"r={natsStr s.rs};u={natsStr s.us};ymsg={hexBytes s.ymsg};umsg={hexBytes s.umsg}"
+    | _, _, _, _ => "bad-op"
+  -- b32 <v>: bytes32 alone
+  | ["b32", v] =>
+    match natOfHex v with
+    | some v => match Vole.bytes32 v with
+      | some b => hexBytes b
+      | none => "panic"
+    | none => "bad-op"
+  -- prg <label>
+  | ["prg", l] =>
+    match natOfHex l with
+    | some l => hexFixed 64 (Vole.prgAes (BitVec.ofNat 128 l))
+    | none => "bad-op"
+  -- fx <rl:8 hex> <a> <b>
+  | ["fx", rl, a, b] =>
+    match natOfHex rl, a.toNat?, b.toNat? with
+    | some rl, some a, some b =>
+      let r := Fx.fx Fx.idealOt (BitVec.ofNat 32 rl) a b
+      s!"w={hex128 r.wire.l0}{hex128 r.wire.l1};got={hex128 r.got};r={r.r};xb={r.xb}"
+    | _, _, _ => "bad-op"
+  -- fxk <r:8 hex> <s:8 hex> <b>
+  | ["fxk", r, s, b] =>
+    match natOfHex r, natOfHex s, b.toNat? with
+    | some r, some s, some b =>
+      let x := Fx.fxk Fx.idealOt (BitVec.ofNat 32 r) (BitVec.ofNat 32 s) b
+      s!"w={hex128 x.wire.l0}{hex128 x.wire.l1};got={hex128 x.got};r={hexFixed 8 x.r.toNat};xb={hexFixed 8 x.xb.toNat}"
+    | _, _, _ => "bad-op"
+  -- toot <l:8 hex>
+  | ["toot", l] =>
+    match natOfHex l with
+    | some l => hex128 (Fx.toOT (BitVec.ofNat 32 l))
+    | none => "bad-op"
+  -- fromot <x:32 hex>
+  | ["fromot", x] =>
+    match natOfHex x with
+    | some x => hexFixed 8 (Fx.fromOT (BitVec.ofNat 128 x)).toNat
+    | none => "bad-op"
+  | _ => "bad-op"
 
 end Drv.C20
 
